@@ -352,12 +352,17 @@ func (ct *Contract) addClause(kw, rest, file string, line int) error {
 	case "callsite":
 		// callsite <calleeKey|*> assert[TAGS] @label expr
 		f := strings.Fields(rest)
-		if len(f) < 3 || !strings.HasPrefix(f[1], "assert") {
+		if len(f) < 3 || !(strings.HasPrefix(f[1], "assert") || strings.HasPrefix(f[1], "assume")) {
 			return fmt.Errorf("callsite wants: callsite <callee> assert[tags] @label expr")
 		}
 		cl.Kind = "callsite"
 		callee := f[0]
 		body := strings.TrimSpace(rest[len(f[0]):])
+		if strings.HasPrefix(body, "assume") {
+			// callsite <callee> assume ...: a premise stated where it is needed (listed as trusted)
+			cl.Assumed = true
+			body = strings.TrimSpace(strings.TrimPrefix(body, "assume"))
+		}
 		body = strings.TrimSpace(strings.TrimPrefix(body, "assert"))
 		if m := tagRe.FindStringSubmatch(body); m != nil {
 			for _, t := range strings.Split(m[1], ",") {
